@@ -52,7 +52,8 @@ def required_cells(tier):
               "crlf-line-ends", "crlf-with-continuation-in-directive", "malformed-directive-in-skipped-group",
               "line-longer-than-read-buffers", "utf-8-byte-order-mark", "nested-headers-with-unknown-extension",
               "malformed-conditional-in-skipped-group", "class:command-line-undef", "command-line:-D-then-U", "command-line:-U-then-D",
-              "macro-chain-depth>=45", "macro-chain-depth>=150", "macro-chain-depth>=190"]
+              "macro-chain-depth>=45", "macro-chain-depth>=150", "macro-chain-depth>=190",
+              "layout:directive-after-multi-line-comment", "layout:blank-continuation-lines-before-directive", "layout:escape-sequences-of-every-length"]
     return cells
 
 
@@ -438,6 +439,56 @@ def deep_chain_case(depth):
     return ast
 
 
+LAYOUT_TEXTS = [
+    # a directive on the closing line of an indented multi-line block comment (2, 3, 4 lines; a blank line inside)
+    "cbi_m_l_1;\n    /* text\n     */ #define FEATURE 1\n#if FEATURE\ncbi_m_l_5;\n#else\ncbi_m_l_7;\n#endif\n",
+    "cbi_m_l_1;\n    /* text\n     * more text\n     */ #define FEATURE 1\n#if FEATURE\ncbi_m_l_6;\n#else\ncbi_m_l_8;\n#endif\n",
+    "cbi_m_l_1;\n  /* a\n   * b\n   * c\n   */ #if 0\ncbi_m_l_6;\n  /* d\n\n   */ #else\ncbi_m_l_10;\n /*\n\n\n */ #endif\ncbi_m_l_15;\n",
+    "cbi_m_l_1;\n\t/* text\n\t\n\t */\t#ifdef X\ncbi_m_l_5;\n#endif\ncbi_m_l_7;\n",
+    # blank physical lines joined by backslash-newline in front of a directive
+    "cbi_m_l_1;\n \\\n\\\n #ifdef X\ncbi_m_l_5;\n#else\ncbi_m_l_7;\n#endif\n",
+    " \\\n \\\n\\\n# define Y 2\n#if Y == 2\ncbi_m_l_6;\n#endif\n \\\n\\\n cbi_m_l_10;\n",
+    "/* c */ /* d\n */ /* e\n\n*/ # if 1\ncbi_m_l_5;\n  /* f */ # endif /* g\n */\ncbi_m_l_8;\n",
+    # character constants with escape sequences of every length in conditions
+    "#if '\\x1' == 1\ncbi_m_l_2;\n#endif\n#if '\\xA' == 10 && '\\xa' == 10\ncbi_m_l_5;\n#endif\n#if '\\x041' == 65 && '\\x0000041' == 'A'\ncbi_m_l_8;\n#endif\n"
+    "#if '\\?' == 63 && '\\a' == 7 && '\\v' == 11\ncbi_m_l_11;\n#endif\n#if '\\0' == 0 && '\\7' == 7 && '\\101' == 65 && '\\x7f' == 127\ncbi_m_l_14;\n#else\ncbi_m_l_16;\n#endif\n",
+]
+
+
+def layout_texts_class(ctx):
+    """Hand-written layouts whose line classification decides a branch: a directive that follows the end of a multi-line
+    comment on the same line, blank continuation lines in front of a directive, escape sequences of unusual length.
+    Expected: gcc -E on the same file; X is defined for half of the runs."""
+    acc = ctx.acc
+    work = ctx.subdir("layout")
+    for k, text in enumerate(LAYOUT_TEXTS):
+        for defs in ([], ["X"]):
+            if (2 * k + len(defs)) % ctx.nshards != ctx.shard:
+                continue
+            path = os.path.join(work, "layout.c")
+            with open(path, "w") as f:
+                f.write(text)
+            g = gcc.preprocess(path, defines=defs)
+            if not g["ok"]:
+                acc.oracle_disagreement({"text": text, "gcc_stderr": g["stderr"][:200]})
+                continue
+            lines = text.split("\n")
+            want = set(g["markers"])
+            cells = {"class:layout", "layout:" + ("directive-after-multi-line-comment" if k < 4 or k == 6 else "blank-continuation-lines-before-directive" if k < 6 else "escape-sequences-of-every-length")}
+            try:
+                state, _ = cbi.run_find(work, {"p": [cbi.entry(path, defs)]})
+                per, _ = cbi.per_line(state, path)
+                got = {lines[ln - 1].strip().rstrip(";") for ln, ps in per.items() if "p" in ps and lines[ln - 1].strip().startswith("cbi_m_l_")}
+                problem = None if got == want else {"kind": "attribution", "missing": sorted(want - got), "extra": sorted(got - want)}
+            except Exception as e:
+                problem = {"kind": "exception", "observed": f"{type(e).__name__}: {e}"}
+            if problem:
+                acc.violated({"input": {"text": text, "defines": defs}, "witness": {"text": text, "defines": defs, "problems": [problem]}},
+                             cells=cells, nontrivial=(text, tuple(defs)), cls="layout")
+            else:
+                acc.held(cells=cells, nontrivial=(text, tuple(defs)), cls="layout", sample={"text": text, "defines": defs})
+
+
 def run_shard(ctx):
     acc = ctx.acc
     b = bounds(ctx.tier)
@@ -468,6 +519,7 @@ def run_shard(ctx):
                              ["else", None, [["code"]]]]]]
         r = cprog.render(probe2)
         run_case(ctx, work, r.text, [], r, "enum", case={"ast": probe2})
+    layout_texts_class(ctx)
     # -U / -D on the command line, in every order (deterministic)
     if ctx.shard == 1 % ctx.nshards:
         command_line_undef_scenarios(ctx, work)
